@@ -40,6 +40,11 @@ func writeReplay(path, prop string, h harnessInfo, v *Violation, tier string) {
 	if v.Kind == "impossible" {
 		r.Repeat = 48
 	}
+	if v.Kind == "race" {
+		// confirmed natively by the Go race detector with the goroutines running freely
+		r.Repeat = 8
+		r.Schedule = nil
+	}
 	// clock readings in order
 	type kv struct {
 		n int
@@ -59,6 +64,8 @@ func writeReplay(path, prop string, h harnessInfo, v *Violation, tier string) {
 	data, _ := json.MarshalIndent(r, "", " ")
 	os.WriteFile(path, data, 0o644)
 }
+
+var loadedHarnessDirs = map[string]bool{}
 
 var reTimeNow = regexp.MustCompile(`\btime\.Now\(\)`)
 var reTimeSince = regexp.MustCompile(`\btime\.Since\(`)
@@ -95,7 +102,12 @@ func nativeRun(repo, verif string, dirFiles map[string][]string, h harnessInfo, 
 	sb.WriteString("\t})\n}\n")
 	testFile := filepath.Join(tmp, "replay_test.go")
 	os.WriteFile(testFile, []byte(sb.String()), 0o644)
+	// the same harness directories the symbolic run had mounted (a harness of one package may be
+	// used by a harness of another, e.g. clusterinfo scripts used from nsqadmin)
 	dirs := map[string]bool{h.Dir: true}
+	for d := range loadedHarnessDirs {
+		dirs[d] = true
+	}
 	ov := overlayFor(repo, verif, dirFiles, dirs, map[string]string{filepath.Join(repo, h.Dir, "zz_verif_replay_test.go"): testFile})
 	// schedule control: instrumented copies of every file of the package (sync points, go statements)
 	instrumented := map[string]bool{}
@@ -169,9 +181,15 @@ func nativeRun(repo, verif string, dirFiles map[string][]string, h harnessInfo, 
 	os.WriteFile(ovFile, ovData, 0o644)
 	ctx, cancel := context.WithTimeout(context.Background(), 180*time.Second)
 	defer cancel()
-	cmd := exec.CommandContext(ctx, "go", "test", "-tags", "verif", "-vet=off", "-count=1", "-timeout", "60s", "-run", "^TestVerifReplay$", "-v", "-overlay", ovFile, "./"+h.Dir)
+	args := []string{"test", "-tags", "verif", "-vet=off", "-count=1", "-timeout", "60s", "-run", "^TestVerifReplay$", "-v", "-overlay", ovFile, "./" + h.Dir}
+	cgo := "CGO_ENABLED=0"
+	if replayKind(replayPath) == "race" {
+		args = append([]string{"test", "-race"}, args[1:]...)
+		cgo = "CGO_ENABLED=1"
+	}
+	cmd := exec.CommandContext(ctx, "go", args...)
 	cmd.Dir = repo
-	cmd.Env = append(os.Environ(), "VERIF_REPLAY="+replayPath, "CGO_ENABLED=0", "GOFLAGS=-mod=mod", "GOPROXY=off", "GOSUMDB=off", "GOTOOLCHAIN=local")
+	cmd.Env = append(os.Environ(), "VERIF_REPLAY="+replayPath, cgo, "GOFLAGS=-mod=mod", "GOPROXY=off", "GOSUMDB=off", "GOTOOLCHAIN=local")
 	out, err := cmd.CombinedOutput()
 	return string(out), err
 }
@@ -197,6 +215,10 @@ func replayNative(repo, verif string, dirFiles map[string][]string, h harnessInf
 			}
 		}
 		if strings.Contains(out, "VERIF-PANIC") || strings.Contains(out, "\npanic: ") || strings.Contains(out, "fatal error: ") {
+			return true, ""
+		}
+	case "race":
+		if strings.Contains(out, "WARNING: DATA RACE") {
 			return true, ""
 		}
 	case "impossible":
@@ -321,6 +343,18 @@ func selftest() int {
 	}
 	fmt.Println("selftest ok:", len(terms)*len(models), "evaluations agree with z3")
 	return 0
+}
+
+func replayKind(path string) string {
+	data, err := os.ReadFile(path)
+	if err != nil {
+		return ""
+	}
+	var r replayJSON
+	if json.Unmarshal(data, &r) != nil {
+		return ""
+	}
+	return r.Kind
 }
 
 func replayHasSchedule(path string) bool {
